@@ -3,7 +3,7 @@
    Part B: layout -- every parser function builds its node over the lexemes it consumed (`covers`, `lay`).
    Part C: a laid-out tree over monotone in-file lexeme spans is numerically well formed (`wf`). *)
 From Coq Require Import ZArith NArith List String Bool Lia.
-From SV Require Import Parse.Tokens Parse.Ast Parse.Model Span.Model Span.ParserSpans.
+From SV Require Import Parse.Tokens Parse.Ast Parse.Model Span.Model Span.Proofs Span.ParserSpans.
 Import ListNotations.
 Open Scope list_scope.
 
@@ -703,6 +703,699 @@ Qed.
 
 Notation GoodE := (fun (c : stoks) (e : sexpr) => covers c (tree_of e)).
 
-Ltac sbind := eapply sat_bind; [ | let c := fresh "c" in let a := fresh "a" in let ts := fresh "ts" in
-                                    let q := fresh "q" in let E := fresh "E" in
-                                    intros c a ts q E; cbn [fst snd] in E; cbn beta iota ].
+Ltac sbi := let c := fresh "c" in let a := fresh "a" in let ts := fresh "ts" in
+            let q := fresh "q" in let E := fresh "E" in
+            intros c a ts q E; cbv beta in q; cbn [fst snd] in E; cbn beta iota; cbn [fst snd].
+Ltac sb tac := eapply sat_bind; [ tac | sbi ].
+Ltac sbindq Q := eapply sat_bind with (Q1 := Q); [ | sbi ].
+Lemma kl_cov1 : forall c k, covers c k -> kids_lay c [k].
+Proof. intros c k H. rewrite <- (app_nil_r c). apply kl_cov; [exact H | constructor]. Qed.
+Ltac kl := repeat first [ apply kl_nil | apply kl_leaf | (eapply kl_cov; [eassumption|]) | (apply kl_cov1; assumption) | apply kl_skip ].
+Ltac spn := cbn [first_begin end_last app fst snd]; repeat (first [rewrite end_last_app | progress cbn [end_last app]]); reflexivity.
+Ltac ret := apply sat_ret; rewrite ?app_nil_r.
+Ltac wk := let c' := fresh "c" in let a' := fresh "a" in let H := fresh "H" in
+           intros c' a' H; cbv beta in *;
+           repeat (first [rewrite <- app_assoc in H | progress cbn [app] in H]);
+           repeat (first [rewrite <- app_assoc | progress cbn [app]]); exact H.
+
+Section LPratt.
+  Variable c : cfg.
+  Variable SP : st -> spres.
+  Hypothesis GP : forall s, sat s (SP s) GoodE.
+
+  Lemma pratt_lay : forall n,
+    (forall m s, sat s (sparse_expr c SP n m s) GoodE) /\
+    (forall nl nr m c0 lhs s, covers c0 (tree_of lhs) ->
+       sat s (sinfix_loop c SP n nl nr m lhs s) (fun c e => covers (c0 ++ c) (tree_of e))).
+  Proof.
+    induction n as [|n [IH1 IH2]]; [split; intros; exact I|]. split.
+    - intros m [ts le]. rewrite sparse_expr_S. unfold sprefix. cbn [fst snd].
+      sbindq (fun (c : stoks) (e : sexpr) => covers c (tree_of e)).
+      + destruct ts as [|[t [l r]] rest]; [apply GP|].
+        destruct (tok_is_not t && _)%Z; [|apply GP].
+        apply sat_tok. sb ltac:(apply IH1). apply sat_ret. cbn [tree_of].
+        eapply cov_full with (p := le); [discriminate | kl | spn].
+      + eapply sat_weaken; [apply (IH2 _ _ _ c0 a); exact q|]. wk.
+    - intros nl nr m c0 lhs [ts le] G. rewrite sinfix_loop_S. unfold sloop_body. cbn [fst snd].
+      destruct ts as [|[t [l r]] rest]; [apply sat_ret; rewrite app_nil_r; exact G|].
+      destruct (tok_is_not t).
+      + destruct (nl <? m)%Z; [apply sat_ret; rewrite app_nil_r; exact G|].
+        destruct rest as [|[t2 [l2 r2]] rest']; [exact I|]. destruct (tok_is_in t2); [|exact I].
+        apply sat_tok, sat_tok. sb ltac:(apply IH1). destruct (reject_chained _ _); [exact I|].
+        eapply sat_weaken; [apply (IH2 _ _ _ (c0 ++ [(t, (l, r)); (t2, (l2, r2))] ++ c1))|wk].
+        cbn [tree_of]. rewrite <- !rsp_tree_of. apply cov_op; assumption.
+      + destruct (lookup (c_tbl c) t) as [[[op lb] rb]|]; [|apply sat_ret; rewrite app_nil_r; exact G].
+        destruct (lb <? m)%Z; [apply sat_ret; rewrite app_nil_r; exact G|].
+        apply sat_tok. sb ltac:(apply IH1). destruct (_ && _); [exact I|].
+        eapply sat_weaken; [apply (IH2 _ _ _ (c0 ++ [(t, (l, r))] ++ c1))|wk].
+        cbn [tree_of]. rewrite <- !rsp_tree_of. apply cov_op; assumption.
+  Qed.
+End LPratt.
+
+Lemma kl_post : forall c ks x, kids_lay c ks -> kids_lay (c ++ x) ks.
+Proof. intros c ks x H. rewrite <- (app_nil_r ks). apply kl_app; [exact H | constructor]. Qed.
+
+Lemma tree_of_snorm : forall e, tree_of (snorm_target e) = tree_of e.
+Proof.
+  fix IH 1. destruct e; cbn [snorm_target tree_of]; try reflexivity; f_equal;
+    induction l as [|a l IHl]; cbn [map]; try reflexivity; (f_equal; [apply IH | apply IHl]).
+Qed.
+
+Lemma sctor_tree : forall k g, sctor_of_code k = Some g -> forall sp e, tree_of (g sp e) = RT sp None [tree_of e].
+Proof.
+  intros [|p] g H; [discriminate|]. destruct p as [[p|p|]|[p|[p|p|]|]|]; cbn in H; try discriminate; inversion H; reflexivity.
+Qed.
+
+Lemma pos_first : forall (s : st) c1 (ts1 : stoks), fst s = c1 ++ ts1 -> c1 <> [] -> pos s = first_begin c1.
+Proof. intros [ts le] [|[t [l r]] c1] ts1 E NE; [congruence|]. cbn [fst] in E. subst ts. reflexivity. Qed.
+
+Lemma flat_map_single : forall {A B} (f : A -> B) l, flat_map (fun x => [f x]) l = map f l.
+Proof. induction l as [|a l IH]; cbn; [reflexivity | rewrite IH; reflexivity]. Qed.
+
+Lemma sat_guard : forall (s : st) (m : spres) Q, sat s m Q -> sat s (sguard s m) Q.
+Proof. intros s m Q H. unfold sguard. destruct m as [[e s']| | |]; try exact I. destruct (Nat.ltb _ _); [exact H | exact I]. Qed.
+
+Section LBody.
+  Variable c : cfg.
+  Variable SR : srecs.
+  Hypothesis GT : forall s, sat s (sr_test SR s) GoodE.
+  Hypothesis GO : forall s, sat s (sr_ortest SR s) GoodE.
+  Hypothesis GE : forall s, sat s (sr_exprlist SR s) GoodE.
+  Hypothesis GA : forall s, sat s (sr_args SR s) (fun c args => kids_lay c (map tree_of_arg args)).
+
+  Lemma comma_loop_lay : forall T start, (forall s, sat s (T s) GoodE) -> forall n acc s,
+    sat s (scomma_loop n T start acc s)
+        (fun c r => exists new, fst r = rev acc ++ new /\ kids_lay c (map tree_of new) /\ (new = [] -> snd r = false -> c = [])).
+  Proof.
+    intros T start HT. induction n as [|n IH]; intros acc [ts le]; [exact I|]. cbn [scomma_loop fst snd].
+    assert (D : sat (ts, le) (Ok (rev acc, false, (ts, le)))
+                  (fun c r => exists new, fst r = rev acc ++ new /\ kids_lay c (map tree_of new) /\ (new = [] -> snd r = false -> c = []))).
+    { ret. exists []. rewrite app_nil_r. repeat split; constructor. }
+    destruct ts as [|[[] [l r]] rest]; try exact D. clear D.
+    assert (D : sat ((TComma, (l, r)) :: rest, le) (Ok (rev acc, true, (rest, r)))
+                  (fun c r => exists new, fst r = rev acc ++ new /\ kids_lay c (map tree_of new) /\ (new = [] -> snd r = false -> c = []))).
+    { apply sat_tok. ret. exists []. rewrite app_nil_r. repeat split; try constructor. discriminate. }
+    destruct rest as [|[t [l1 r1]] rest1]; [exact D|]. destruct (start t); [|exact D]. clear D.
+    apply sat_tok. sb ltac:(apply HT). eapply sat_weaken; [apply IH|].
+    intros c' [items tr] (new & E1 & K & _). cbn [fst snd] in *. exists (a :: new). repeat split.
+    - rewrite E1. cbn [rev]. rewrite <- app_assoc. reflexivity.
+    - cbn [map]. kl. exact K.
+    - discriminate.
+  Qed.
+
+  Lemma test_list_tail_lay : forall T allow, (forall s, sat s (T s) GoodE) -> forall c0 p0 first l s,
+    covers c0 (tree_of first) -> l = first_begin c0 -> snd s = end_last p0 c0 ->
+    sat s (stest_list_tail c T allow l first s) (fun c e => covers (c0 ++ c) (tree_of e)).
+  Proof.
+    intros T allow HT c0 p0 first l [ts le] G -> EL. cbn [snd] in EL. unfold stest_list_tail.
+    sb ltac:(apply (comma_loop_lay T (is_test_start c) HT)). destruct a as [items tr]. destruct q as (new & E1 & K & Z).
+    cbn [fst snd rev app] in *. subst items.
+    assert (D : sat (ts0, end_last le c1) (Ok (XTuple (first_begin c0, end_last le c1) (first :: new), (ts0, end_last le c1)))
+                  (fun c2 b => covers (c0 ++ c1 ++ c2) (tree_of b))).
+    { ret. cbn [tree_of map]. eapply cov_full with (p := p0); [apply app_ne_l; eapply covers_ne; eauto| |].
+      - apply kl_cov; assumption.
+      - rewrite first_begin_app by (eapply covers_ne; eauto). rewrite end_last_app, <- EL. reflexivity. }
+    destruct new as [|y new]; destruct tr; cbn [andb]; try (destruct (negb allow); [exact I|]); try exact D.
+    rewrite (Z eq_refl eq_refl). ret. exact G.
+  Qed.
+
+  Lemma test_list_lay : forall T allow, (forall s, sat s (T s) GoodE) -> forall s, sat s (stest_list c T allow s) GoodE.
+  Proof.
+    intros T allow HT s. unfold stest_list. sb ltac:(apply HT).
+    assert (D : sat (ts, end_last (snd s) c0) (Ok (a, (ts, end_last (snd s) c0))) (fun c2 b => covers (c0 ++ c2) (tree_of b))).
+    { ret. exact q. }
+    destruct ts as [|[[] [l r]] rest]; try exact D. clear D.
+    apply (test_list_tail_lay T allow HT c0 (snd s)); [exact q | | reflexivity].
+    apply (pos_first s c0 _ E). eapply covers_ne; eauto.
+  Qed.
+
+  Lemma slice_rest_lay : forall l cE e mid start s,
+    covers cE (tree_of e) -> kids_lay mid (okid tree_of start) -> mid <> [] -> l = fst (sspan e) ->
+    sat s (sslice_rest SR l e start s) (fun c r => covers (cE ++ mid ++ c) (tree_of r)).
+  Proof.
+    intros l cE e mid start [ts le] G KM NM ->. unfold sslice_rest. cbn [fst snd].
+    sbindq (fun (c : stoks) (o : option sexpr) => kids_lay c (okid tree_of o)).
+    { assert (D : sat (ts, le) ('(x, s') <- sr_test SR (ts, le) ;; Ok (Some x, s')) (fun (c : stoks) (o : option sexpr) => kids_lay c (okid tree_of o))).
+      { sb ltac:(apply GT). ret. cbn [okid]. rewrite <- (app_nil_r c0). kl. }
+      destruct ts as [|[[] [l0 r0]] rest0]; try exact D; ret; constructor. }
+    sbindq (fun (c : stoks) (o : option sexpr) => kids_lay c (okid tree_of o)).
+    { destruct ts0 as [|[[] [l0 r0]] rest0]; try (ret; constructor).
+      assert (D : sat ((TColon, (l0, r0)) :: rest0, end_last le c0) ('(x, s') <- sr_test SR (rest0, r0) ;; Ok (Some x, s'))
+                      (fun (c : stoks) (o : option sexpr) => kids_lay c (okid tree_of o))).
+      { apply sat_tok. sb ltac:(apply GT). ret. cbn [okid]. apply kl_skip. rewrite <- (app_nil_r c1). kl. }
+      destruct rest0 as [|[[] [l1 r1]] rest1]; try exact D. apply sat_tok. ret. constructor. }
+    apply sat_expect. intros t' l2 r2 rest2 _ _. ret. cbn [tree_of]. rewrite <- rsp_tree_of.
+    eapply cov_left with (p := 0); [exact G | | apply app_ne_l; exact NM | ].
+    - apply kl_app; [exact KM|]. apply kl_app; [exact q|]. apply kl_post. exact q0.
+    - f_equal. rewrite !end_last_app. reflexivity.
+  Qed.
+
+  Lemma index_or_slice_lay : forall l cE e t0 lb0 rb0 s, covers cE (tree_of e) -> l = fst (sspan e) ->
+    sat s (sindex_or_slice SR l e s) (fun c r => covers (cE ++ (t0, (lb0, rb0)) :: c) (tree_of r)).
+  Proof.
+    intros l cE e t0 lb0 rb0 [ts le] G ->. unfold sindex_or_slice. cbn [fst snd].
+    assert (D : sat (ts, le)
+      ('(first, s1) <- sr_test SR (ts, le) ;;
+       match fst s1 with
+       | (TColon, (_, r)) :: rest => sslice_rest SR (fst (sspan e)) e (Some first) (rest, r)
+       | (TComma, (_, r)) :: rest =>
+         '(second, s2) <- sr_test SR (rest, r) ;;
+         s3 <- sexpect TClosingSquare s2 ;; Ok (XIndex2 (fst (sspan e), snd s3) e first second, s3)
+       | _ => s2 <- sexpect TClosingSquare s1 ;; Ok (XIndex (fst (sspan e), snd s2) e first, s2)
+       end) (fun c r => covers (cE ++ (t0, (lb0, rb0)) :: c) (tree_of r))).
+    { sb ltac:(apply GT).
+      assert (D2 : sat (ts0, end_last le c0) (s2 <- sexpect TClosingSquare (ts0, end_last le c0) ;; Ok (XIndex (fst (sspan e), snd s2) e a, s2))
+                       (fun c2 b => covers (cE ++ (t0, (lb0, rb0)) :: c0 ++ c2) (tree_of b))).
+      { apply sat_expect. intros t' l2 r2 rest2 _ _. ret. cbn [tree_of snd]. rewrite <- rsp_tree_of.
+        eapply cov_left with (p := 0%N); [exact G | | discriminate | f_equal; spn]. apply kl_skip. kl. }
+      destruct ts0 as [|[[] [l1 r1]] rest1]; try exact D2; clear D2.
+      - apply sat_tok. sb ltac:(apply GT). apply sat_expect. intros t' l2 r2 rest2 _ _. ret. cbn [tree_of snd]. rewrite <- rsp_tree_of.
+        eapply cov_left with (p := 0%N); [exact G | | discriminate | f_equal; spn]. apply kl_skip. kl.
+      - apply sat_tok. eapply sat_weaken; [apply (slice_rest_lay _ cE e ((t0, (lb0, rb0)) :: c0 ++ [(TColon, (l1, r1))]) (Some a)); try assumption; try reflexivity|].
+        + cbn [okid]. apply kl_skip. kl.
+        + discriminate.
+        + wk. }
+    destruct ts as [|[[] [l0 r0]] rest0]; try exact D; clear D.
+    apply sat_tok. eapply sat_weaken; [apply (slice_rest_lay _ cE e [(t0, (lb0, rb0)); (TColon, (l0, r0))] None); try assumption; try reflexivity|].
+    - constructor.
+    - discriminate.
+    - wk.
+  Qed.
+
+  Lemma suffix_loop_lay : forall n c0 lhs s, covers c0 (tree_of lhs) ->
+    sat s (ssuffix_loop SR n lhs s) (fun c e => covers (c0 ++ c) (tree_of e)).
+  Proof.
+    induction n as [|n IH]; intros c0 lhs [ts le] G; [exact I|]. cbn [ssuffix_loop fst snd].
+    assert (D : sat (ts, le) (Ok (lhs, (ts, le))) (fun c e => covers (c0 ++ c) (tree_of e))). { ret. exact G. }
+    destruct ts as [|[[] [l0 r0]] rest0]; try exact D.
+    - (* . name *)
+      destruct rest0 as [|[[] [l1 r1]] rest1]; try exact I. apply sat_tok, sat_tok.
+      eapply sat_weaken; [apply (IH (c0 ++ [(TDot, (l0, r0)); (TIdentifier n0, (l1, r1))]))|wk].
+      cbn [tree_of]. rewrite <- rsp_tree_of. eapply cov_left with (p := 0%N); [exact G | | discriminate | f_equal; spn]. kl.
+    - (* call *)
+      apply sat_tok. sb ltac:(apply GA). apply sat_expect. intros t' l2 r2 rest2 _ _. destruct (check_args _ _ _); [|exact I].
+      eapply sat_weaken; [apply (IH (c0 ++ (TOpeningRound, (l0, r0)) :: c1 ++ [(t', (l2, r2))]))|wk].
+      cbn [tree_of snd]. rewrite <- rsp_tree_of. eapply cov_left with (p := 0%N); [exact G | | discriminate | f_equal; spn].
+      apply kl_skip, kl_post. exact q.
+    - (* index / slice *)
+      apply sat_tok. sb ltac:(apply (index_or_slice_lay _ c0 lhs TOpeningSquare l0 r0); [exact G | reflexivity]).
+      eapply sat_weaken; [apply (IH _ a _ q)|wk].
+  Qed.
+
+  Lemma continue_primary_lay : forall c0 lhs s, covers c0 (tree_of lhs) ->
+    sat s (scontinue_primary SR lhs s) (fun c e => covers (c0 ++ c) (tree_of e)).
+  Proof. intros. apply suffix_loop_lay. assumption. Qed.
+
+  Lemma for_clause_lay : forall s, sat s (sfor_clause SR s) (fun c cl => kids_lay c (kids_of_clause cl)).
+  Proof.
+    intros s. unfold sfor_clause. apply sat_expect. intros t0 l0 r0 rest0 _ _. sb ltac:(apply GE).
+    apply sat_expect. intros t1 l1 r1 rest1 _ _. sb ltac:(apply GO). destruct (check_assign _); [|exact I]. ret.
+    cbn [kids_of_clause]. rewrite tree_of_snorm. kl.
+  Qed.
+
+  Lemma clause_loop_lay : forall n acc s,
+    sat s (sclause_loop SR n acc s) (fun c cs => exists new, cs = rev acc ++ new /\ kids_lay c (flat_map kids_of_clause new)).
+  Proof.
+    induction n as [|n IH]; intros acc [ts le]; [exact I|]. cbn [sclause_loop fst snd].
+    assert (D : sat (ts, le) (Ok (rev acc, (ts, le))) (fun c cs => exists new, cs = rev acc ++ new /\ kids_lay c (flat_map kids_of_clause new))).
+    { ret. exists []. rewrite app_nil_r. split; constructor. }
+    destruct ts as [|[[] [l0 r0]] rest0]; try exact D; clear D.
+    - apply sat_tok. sb ltac:(apply GO). eapply sat_weaken; [apply IH|]. intros c' cs (new & E1 & K). exists (WIf a :: new). split.
+      + rewrite E1. cbn [rev]. rewrite <- app_assoc. reflexivity.
+      + cbn [flat_map kids_of_clause app]. apply kl_skip. kl. exact K.
+    - sb ltac:(apply for_clause_lay). eapply sat_weaken; [apply IH|]. intros c' cs (new & E1 & K). exists (a :: new). split.
+      + rewrite E1. cbn [rev]. rewrite <- app_assoc. reflexivity.
+      + cbn [flat_map]. apply kl_app; assumption.
+  Qed.
+
+  Lemma comp_clauses_lay : forall s, sat s (scomp_clauses SR s) (fun c cs => kids_lay c (flat_map kids_of_clause cs)).
+  Proof.
+    intros s. unfold scomp_clauses. sb ltac:(apply for_clause_lay). eapply sat_weaken; [apply clause_loop_lay|].
+    intros c' cs (new & E1 & K). subst cs. cbn [rev app flat_map]. apply kl_app; assumption.
+  Qed.
+
+  Lemma items_loop_lay : forall {A} (K : A -> list rt) sitem close,
+    (forall s, sat s (sitem s) (fun c x => kids_lay c (K x))) -> forall n acc s,
+    sat s (sitems_loop n sitem close acc s) (fun c items => exists new, items = rev acc ++ new /\ kids_lay c (flat_map K new)).
+  Proof.
+    intros A K sitem close H. induction n as [|n IH]; intros acc [ts le]; [exact I|]. cbn [sitems_loop fst snd].
+    assert (D : sat (ts, le) (Ok (rev acc, (ts, le))) (fun c items => exists new, items = rev acc ++ new /\ kids_lay c (flat_map K new))).
+    { ret. exists []. rewrite app_nil_r. split; constructor. }
+    destruct ts as [|[[] [l0 r0]] rest0]; try exact D; clear D.
+    assert (D : sat ((TComma, (l0, r0)) :: rest0, le) ('(x, s') <- sitem (rest0, r0) ;; sitems_loop n sitem close (x :: acc) s')
+                    (fun c items => exists new, items = rev acc ++ new /\ kids_lay c (flat_map K new))).
+    { apply sat_tok. sb ltac:(apply H). eapply sat_weaken; [apply IH|]. intros c' cs (new & E1 & K1). exists (a :: new). split.
+      - rewrite E1. cbn [rev]. rewrite <- app_assoc. reflexivity.
+      - cbn [flat_map]. apply kl_skip, kl_app; assumption. }
+    destruct rest0 as [|[t [l1 r1]] rest1]; [exact D|]. destruct (token_eqb t close); [|exact D].
+    apply sat_tok. ret. exists []. rewrite app_nil_r. split; constructor.
+  Qed.
+
+  Lemma test_item_lay : forall s, sat s (sr_test SR s) (fun c x => kids_lay c [tree_of x]).
+  Proof. intros s. eapply sat_weaken; [apply GT|]. intros c' a H. cbv beta in H. rewrite <- (app_nil_r c'). kl. Qed.
+
+  Lemma list_or_comp_lay : forall l t0 r0 s,
+    sat s (slist_or_comp SR l s) (fun c e => covers ((t0, (l, r0)) :: c) (tree_of e)).
+  Proof.
+    intros l t0 r0 [ts le]. unfold slist_or_comp. cbn [fst snd].
+    assert (D : sat (ts, le)
+      ('(first, s1) <- sr_test SR (ts, le) ;;
+       match fst s1 with
+       | (TFor, _) :: _ =>
+         '(cs, s2) <- scomp_clauses SR s1 ;; s3 <- sexpect TClosingSquare s2 ;; Ok (XListComp (l, snd s3) first cs, s3)
+       | _ =>
+         '(items, s2) <- sitems_loop (S (List.length (fst s1))) (sr_test SR) TClosingSquare [first] s1 ;;
+         s3 <- sexpect TClosingSquare s2 ;; Ok (XList (l, snd s3) items, s3)
+       end) (fun c e => covers ((t0, (l, r0)) :: c) (tree_of e))).
+    { sb ltac:(apply GT).
+      assert (D2 : sat (ts0, end_last le c0)
+        ('(items, s2) <- sitems_loop (S (List.length ts0)) (sr_test SR) TClosingSquare [a] (ts0, end_last le c0) ;;
+         s3 <- sexpect TClosingSquare s2 ;; Ok (XList (l, snd s3) items, s3))
+        (fun c2 e => covers ((t0, (l, r0)) :: c0 ++ c2) (tree_of e))).
+      { sb ltac:(apply (items_loop_lay (fun x => [tree_of x]) (sr_test SR) TClosingSquare test_item_lay)).
+        destruct q0 as (new & E1 & K1). cbn [rev app] in E1. subst a0.
+        apply sat_expect. intros t' l2 r2 rest2 _ _. ret. cbn [tree_of map snd].
+        eapply cov_full with (p := 0%N); [discriminate | | spn]. apply kl_skip. kl. apply kl_post.
+        rewrite <- flat_map_single. exact K1. }
+      destruct ts0 as [|[[] [l1 r1]] rest1]; try exact D2; clear D2.
+      sb ltac:(apply comp_clauses_lay). apply sat_expect. intros t' l2 r2 rest2 _ _. ret. cbn [tree_of snd].
+      eapply cov_full with (p := 0%N); [discriminate | | spn]. apply kl_skip. kl. apply kl_post. exact q0. }
+    destruct ts as [|[[] [l1 r1]] rest1]; try exact D; clear D.
+    apply sat_tok. ret. cbn [tree_of map]. eapply cov_full with (p := 0%N); [discriminate | constructor | spn].
+  Qed.
+
+  Lemma dict_entry_lay : forall s, sat s (sdict_entry SR s) (fun c kv => kids_lay c [tree_of (fst kv); tree_of (snd kv)]).
+  Proof.
+    intros s. unfold sdict_entry. sb ltac:(apply GT). apply sat_expect. intros t' l2 r2 rest2 _ _. sb ltac:(apply GT). ret.
+    cbn [fst snd]. kl.
+  Qed.
+
+  Lemma dict_or_comp_lay : forall l t0 r0 s,
+    sat s (sdict_or_comp SR l s) (fun c e => covers ((t0, (l, r0)) :: c) (tree_of e)).
+  Proof.
+    intros l t0 r0 [ts le]. unfold sdict_or_comp. cbn [fst snd].
+    assert (D : sat (ts, le)
+      ('(kv, s1) <- sdict_entry SR (ts, le) ;;
+       match fst s1 with
+       | (TFor, _) :: _ =>
+         '(cs, s2) <- scomp_clauses SR s1 ;; s3 <- sexpect TClosingCurly s2 ;;
+         Ok (XDictComp (l, snd s3) (fst kv) (snd kv) cs, s3)
+       | _ =>
+         '(items, s2) <- sitems_loop (S (List.length (fst s1))) (sdict_entry SR) TClosingCurly [kv] s1 ;;
+         s3 <- sexpect TClosingCurly s2 ;; Ok (XDict (l, snd s3) items, s3)
+       end) (fun c e => covers ((t0, (l, r0)) :: c) (tree_of e))).
+    { sb ltac:(apply dict_entry_lay).
+      assert (D2 : sat (ts0, end_last le c0)
+        ('(items, s2) <- sitems_loop (S (List.length ts0)) (sdict_entry SR) TClosingCurly [a] (ts0, end_last le c0) ;;
+         s3 <- sexpect TClosingCurly s2 ;; Ok (XDict (l, snd s3) items, s3))
+        (fun c2 e => covers ((t0, (l, r0)) :: c0 ++ c2) (tree_of e))).
+      { sb ltac:(apply (items_loop_lay (fun kv : sexpr * sexpr => [tree_of (fst kv); tree_of (snd kv)]) (sdict_entry SR) TClosingCurly dict_entry_lay)).
+        destruct q0 as (new & E1 & K1). cbn [rev app] in E1. subst a0.
+        apply sat_expect. intros t' l2 r2 rest2 _ _. ret. cbn [tree_of flat_map snd].
+        eapply cov_full with (p := 0%N); [discriminate | | spn]. apply kl_skip. apply kl_app; [exact q|]. apply kl_post. exact K1. }
+      destruct ts0 as [|[[] [l1 r1]] rest1]; try exact D2; clear D2.
+      sb ltac:(apply comp_clauses_lay). apply sat_expect. intros t' l2 r2 rest2 _ _. ret. cbn [tree_of snd].
+      eapply cov_full with (p := 0%N); [discriminate | | spn]. apply kl_skip.
+      change (tree_of (fst a) :: tree_of (snd a) :: flat_map kids_of_clause a0) with ([tree_of (fst a); tree_of (snd a)] ++ flat_map kids_of_clause a0).
+      apply kl_app; [exact q|]. apply kl_post. exact q0. }
+    destruct ts as [|[[] [l1 r1]] rest1]; try exact D; clear D.
+    apply sat_tok. ret. cbn [tree_of flat_map]. eapply cov_full with (p := 0%N); [discriminate | constructor | spn].
+  Qed.
+
+  Lemma parse_atom_lay : forall s, sat s (sparse_atom c SR s) GoodE.
+  Proof.
+    intros [ts le]. unfold sparse_atom. cbn [fst snd].
+    destruct ts as [|[[] [l0 r0]] rest0]; try exact I; try (apply sat_tok; ret; cbn [tree_of]; apply cov_leaf).
+    - (* ( *)
+      assert (D : sat ((TOpeningRound, (l0, r0)) :: rest0, le)
+        ('(e, s1) <- stest_list c (sr_test SR) true (rest0, r0) ;; s2 <- sexpect TClosingRound s1 ;; Ok (e, s2)) GoodE).
+      { apply sat_tok. sb ltac:(apply (test_list_lay (sr_test SR) true GT)). apply sat_expect. intros t' l2 r2 rest2 _ EQ.
+        apply token_eqb_close in EQ. subst t'. ret. apply cov_paren. exact q. }
+      destruct rest0 as [|[[] [l1 r1]] rest1]; try exact D; clear D.
+      apply sat_tok, sat_tok. ret. cbn [tree_of map]. eapply cov_full with (p := 0%N); [discriminate | constructor | spn].
+    - apply sat_tok. apply list_or_comp_lay.
+    - apply sat_tok. apply dict_or_comp_lay.
+  Qed.
+
+  Lemma parse_primary_lay : forall s, sat s (sparse_primary c SR s) GoodE.
+  Proof.
+    intros s. unfold sparse_primary. sb ltac:(apply parse_atom_lay). eapply sat_weaken; [apply (continue_primary_lay c0 a _ q)|wk].
+  Qed.
+
+  Lemma unary_loop_lay : forall n s, sat s (sunary_loop c SR n s) GoodE.
+  Proof.
+    induction n as [|n IH]; intros [ts le]; [exact I|]. cbn [sunary_loop fst snd].
+    destruct ts as [|[t [l r]] rest]; [apply parse_primary_lay|]. unfold sunary_ctor.
+    destruct (sctor_of_code (unary_code c t)) as [g|] eqn:EG; [|apply parse_primary_lay].
+    apply sat_tok. sb ltac:(apply IH). ret. rewrite (sctor_tree _ _ EG). eapply cov_full with (p := le); [discriminate | kl | spn].
+  Qed.
+
+  Lemma parse_unary_lay : forall s, sat s (sparse_unary c SR s) GoodE.
+  Proof. intros s. unfold sparse_unary. apply sat_guard, unary_loop_lay. Qed.
+
+  Lemma continue_ternary_lay : forall c0 e s, covers c0 (tree_of e) ->
+    sat s (scontinue_ternary SR e s) (fun c r => covers (c0 ++ c) (tree_of r)).
+  Proof.
+    intros c0 e [ts le] G. unfold scontinue_ternary. cbn [fst snd].
+    assert (D : sat (ts, le) (Ok (e, (ts, le))) (fun c r => covers (c0 ++ c) (tree_of r))). { ret. exact G. }
+    destruct ts as [|[[] [l0 r0]] rest0]; try exact D; clear D.
+    apply sat_tok. sb ltac:(apply GO). apply sat_expect. intros t' l2 r2 rest2 _ _. sb ltac:(apply GT). ret.
+    cbn [tree_of snd]. rewrite <- rsp_tree_of. eapply cov_left with (p := 0%N); [exact G | | discriminate | f_equal; spn].
+    apply kl_skip. kl.
+  Qed.
+
+  Lemma lambda_param_lay : forall s, sat s (slambda_param SR s) (fun c p => covers c (tree_of_param p)).
+  Proof.
+    intros [ts le]. unfold slambda_param. cbn [fst snd].
+    destruct ts as [|[[] [l0 r0]] rest0]; try exact I.
+    - (* name [= default] *)
+      assert (D : sat ((TIdentifier n, (l0, r0)) :: rest0, le) (Ok (ZNormal (l0, r0) (l0, r0) n None, (rest0, r0)))
+                      (fun c p => covers c (tree_of_param p))).
+      { apply sat_tok. ret. cbn [tree_of_param okid]. eapply cov_full with (p := 0%N); [discriminate | kl | spn]. }
+      destruct rest0 as [|[[] [l1 r1]] rest1]; try exact D; clear D.
+      apply sat_tok, sat_tok. sb ltac:(apply GT). ret. cbn [tree_of_param okid snd].
+      eapply cov_full with (p := 0%N); [discriminate | kl | spn].
+    - (* * [name] *)
+      assert (D : sat ((TStar, (l0, r0)) :: rest0, le) (Ok (ZNoArgs (l0, r0), (rest0, r0))) (fun c p => covers c (tree_of_param p))).
+      { apply sat_tok. ret. cbn [tree_of_param]. eapply cov_full with (p := 0%N); [discriminate | kl | spn]. }
+      destruct rest0 as [|[[] [l1 r1]] rest1]; try exact D; clear D.
+      apply sat_tok, sat_tok. ret. cbn [tree_of_param]. eapply cov_full with (p := 0%N); [discriminate | kl | spn].
+    - apply sat_tok. ret. cbn [tree_of_param]. eapply cov_full with (p := 0%N); [discriminate | kl | spn].
+    - destruct rest0 as [|[[] [l1 r1]] rest1]; try exact I.
+      apply sat_tok, sat_tok. ret. cbn [tree_of_param]. eapply cov_full with (p := 0%N); [discriminate | kl | spn].
+  Qed.
+
+  Lemma params_loop_lay : forall n acc s,
+    sat s (sparams_loop SR n acc s) (fun c ps => exists new, ps = rev acc ++ new /\ kids_lay c (map tree_of_param new)).
+  Proof.
+    induction n as [|n IH]; intros acc s; [exact I|]. cbn [sparams_loop]. sb ltac:(apply lambda_param_lay).
+    assert (D : sat (ts, end_last (snd s) c0) (Ok (rev (a :: acc), (ts, end_last (snd s) c0)))
+                    (fun c2 ps => exists new, ps = rev acc ++ new /\ kids_lay (c0 ++ c2) (map tree_of_param new))).
+    { ret. exists [a]. split; [reflexivity|]. cbn [map]. kl. }
+    destruct ts as [|[[] [l1 r1]] rest1]; try exact D; clear D.
+    assert (D : sat ((TComma, (l1, r1)) :: rest1, end_last (snd s) c0) (sparams_loop SR n (a :: acc) (rest1, r1))
+                    (fun c2 ps => exists new, ps = rev acc ++ new /\ kids_lay (c0 ++ c2) (map tree_of_param new))).
+    { apply sat_tok. eapply sat_weaken; [apply IH|]. intros c' ps (new & E1 & K). exists (a :: new). split.
+      - rewrite E1. cbn [rev]. rewrite <- app_assoc. reflexivity.
+      - cbn [map]. apply kl_cov; [exact q|]. apply kl_skip. exact K. }
+    destruct rest1 as [|[[] [l2 r2]] rest2]; try exact D; clear D.
+    apply sat_tok. ret. exists [a]. split; [reflexivity|]. cbn [map]. apply kl_cov; [exact q | constructor].
+  Qed.
+
+  Lemma lambda_params_lay : forall s, sat s (slambda_params SR s) (fun c ps => kids_lay c (map tree_of_param ps)).
+  Proof.
+    intros [ts le]. unfold slambda_params. cbn [fst snd].
+    assert (D : sat (ts, le) (sparams_loop SR (S (List.length ts)) [] (ts, le)) (fun c ps => kids_lay c (map tree_of_param ps))).
+    { eapply sat_weaken; [apply params_loop_lay|]. intros c' ps (new & E1 & K). subst ps. exact K. }
+    destruct ts as [|[[] [l1 r1]] rest1]; try exact D; clear D. ret. constructor.
+  Qed.
+
+  Lemma parse_lambda_lay : forall l t0 r0 s, sat s (sparse_lambda SR l s) (fun c e => covers ((t0, (l, r0)) :: c) (tree_of e)).
+  Proof.
+    intros l t0 r0 s. unfold sparse_lambda. sb ltac:(apply lambda_params_lay). apply sat_expect. intros t' l2 r2 rest2 _ _.
+    sb ltac:(apply GT). destruct (check_params _); [|exact I]. ret. cbn [tree_of snd].
+    eapply cov_full with (p := 0%N); [discriminate | | spn]. apply kl_skip. apply kl_app; [exact q|]. apply kl_skip. kl.
+  Qed.
+
+  Lemma pe_top_lay : forall m s, sat s (sparse_expr_top c (sparse_unary c SR) m s) GoodE.
+  Proof. intros. unfold sparse_expr_top. apply (pratt_lay c _ parse_unary_lay). Qed.
+
+  Lemma cont_infix_lay : forall m c0 lhs s, covers c0 (tree_of lhs) ->
+    sat s (scontinue_infix c (sparse_unary c SR) m lhs s) (fun c e => covers (c0 ++ c) (tree_of e)).
+  Proof. intros. unfold scontinue_infix. apply (pratt_lay c _ parse_unary_lay). assumption. Qed.
+
+  Lemma bitor_lay : forall s, sat s (sparse_bitor_expr c (sparse_unary c SR) s) GoodE.
+  Proof.
+    intros s. unfold sparse_bitor_expr. sb ltac:(apply parse_unary_lay). eapply sat_weaken; [apply (cont_infix_lay _ c0 a _ q)|wk].
+  Qed.
+
+  Lemma parse_test_lay : forall s, sat s (sparse_test c SR s) GoodE.
+  Proof.
+    intros [ts le]. unfold sparse_test. cbn [fst snd].
+    assert (D : sat (ts, le) ('(e, s1) <- sparse_expr_top c (sparse_unary c SR) (c_test c) (ts, le) ;; scontinue_ternary SR e s1) GoodE).
+    { sb ltac:(apply pe_top_lay). eapply sat_weaken; [apply (continue_ternary_lay c0 a _ q)|wk]. }
+    destruct ts as [|[[] [l0 r0]] rest0]; try exact D; clear D. apply sat_tok. apply parse_lambda_lay.
+  Qed.
+
+  Lemma parse_or_test_lay : forall s, sat s (sparse_or_test c SR s) GoodE.
+  Proof. intros. apply pe_top_lay. Qed.
+
+  Lemma parse_expr_list_lay : forall s, sat s (sparse_expr_list c SR s) GoodE.
+  Proof.
+    intros s. unfold sparse_expr_list. sb ltac:(apply bitor_lay).
+    assert (D : sat (ts, end_last (snd s) c0) (Ok (a, (ts, end_last (snd s) c0))) (fun c2 b => covers (c0 ++ c2) (tree_of b))).
+    { ret. exact q. }
+    destruct ts as [|[[] [l r]] rest]; try exact D. clear D.
+    sb ltac:(apply (comma_loop_lay _ (is_expr_start c) bitor_lay)). destruct a0 as [items tr]. destruct q0 as (new & E1 & K & Z).
+    cbn [fst snd rev app] in *. subst items. pose proof (covers_ne _ _ q) as NE.
+    assert (D : sat (ts, end_last (end_last (snd s) c0) c1)
+                    (Ok (XTuple (pos s, end_last (end_last (snd s) c0) c1) (a :: new), (ts, end_last (end_last (snd s) c0) c1)))
+                    (fun c2 b => covers (c0 ++ c1 ++ c2) (tree_of b))).
+    { ret. cbn [tree_of map]. eapply cov_full with (p := snd s); [apply app_ne_l; exact NE| |].
+      - apply kl_cov; assumption.
+      - rewrite first_begin_app by exact NE. rewrite end_last_app. rewrite (pos_first s c0 _ E NE). reflexivity. }
+    destruct new as [|y new]; destruct tr; try exact I; try exact D.
+    rewrite (Z eq_refl eq_refl). ret. exact q.
+  Qed.
+
+  Lemma parse_argument_lay : forall s, sat s (sparse_argument c SR s) (fun c a => covers c (tree_of_arg a)).
+  Proof.
+    intros [ts le]. unfold sparse_argument. cbn [fst snd].
+    assert (D : sat (ts, le) ('(e, s1) <- sparse_test c SR (ts, le) ;; Ok (YPos (pos (ts, le), snd s1) e, s1))
+                    (fun c a => covers c (tree_of_arg a))).
+    { sb ltac:(apply parse_test_lay). ret. cbn [tree_of_arg snd]. pose proof (covers_ne _ _ q) as NE.
+      eapply cov_full with (p := le); [exact NE | kl | ]. rewrite (pos_first (ts, le) c0 _ E NE). reflexivity. }
+    destruct ts as [|[[] [l0 r0]] rest0]; try exact D; clear D.
+    - assert (D : sat ((TIdentifier n, (l0, r0)) :: rest0, le)
+        ('(e1, s1) <- scontinue_primary SR (XId (l0, r0) n) (rest0, r0) ;;
+         if Nat.leb (List.length (fst s1)) (List.length rest0) then
+           '(e2, s2) <- scontinue_infix c (sparse_unary c SR) (c_arg c) e1 s1 ;;
+           '(e3, s3) <- scontinue_ternary SR e2 s2 ;;
+           Ok (YPos (l0, snd s3) e3, s3)
+         else Err 99) (fun c a => covers c (tree_of_arg a))).
+      { apply sat_tok. sb ltac:(apply (continue_primary_lay [(TIdentifier n, (l0, r0))] (XId (l0, r0) n)); apply cov_leaf).
+        destruct (Nat.leb _ _); [|exact I]. sb ltac:(apply (cont_infix_lay _ _ a _ q)).
+        sb ltac:(apply (continue_ternary_lay _ a0 _ q0)). ret. cbn [tree_of_arg snd app] in *.
+        eapply cov_full with (p := 0%N); [discriminate | | spn].
+        rewrite <- (app_nil_r (_ :: _)). apply (kl_cov _ _ [] []); [|constructor].
+        repeat (first [rewrite <- app_assoc in q1 | progress cbn [app] in q1]). exact q1. }
+      destruct rest0 as [|[[] [l1 r1]] rest1]; try exact D; clear D.
+      apply sat_tok, sat_tok. sb ltac:(apply parse_test_lay). ret. cbn [tree_of_arg snd].
+      eapply cov_full with (p := 0%N); [discriminate | kl | spn].
+    - apply sat_tok. sb ltac:(apply parse_test_lay). ret. cbn [tree_of_arg snd]. eapply cov_full with (p := 0%N); [discriminate | kl | spn].
+    - apply sat_tok. sb ltac:(apply parse_test_lay). ret. cbn [tree_of_arg snd]. eapply cov_full with (p := 0%N); [discriminate | kl | spn].
+  Qed.
+
+  Lemma args_loop_lay : forall n acc s,
+    sat s (sargs_loop c SR n acc s) (fun c args => exists new, args = rev acc ++ new /\ kids_lay c (map tree_of_arg new)).
+  Proof.
+    induction n as [|n IH]; intros acc s; [exact I|]. cbn [sargs_loop]. sb ltac:(apply parse_argument_lay).
+    assert (D : sat (ts, end_last (snd s) c0) (Ok (rev (a :: acc), (ts, end_last (snd s) c0)))
+                    (fun c2 ps => exists new, ps = rev acc ++ new /\ kids_lay (c0 ++ c2) (map tree_of_arg new))).
+    { ret. exists [a]. split; [reflexivity|]. cbn [map]. kl. }
+    destruct ts as [|[[] [l1 r1]] rest1]; try exact D; clear D.
+    assert (D : sat ((TComma, (l1, r1)) :: rest1, end_last (snd s) c0) (sargs_loop c SR n (a :: acc) (rest1, r1))
+                    (fun c2 ps => exists new, ps = rev acc ++ new /\ kids_lay (c0 ++ c2) (map tree_of_arg new))).
+    { apply sat_tok. eapply sat_weaken; [apply IH|]. intros c' ps (new & E1 & K). exists (a :: new). split.
+      - rewrite E1. cbn [rev]. rewrite <- app_assoc. reflexivity.
+      - cbn [map]. apply kl_cov; [exact q|]. apply kl_skip. exact K. }
+    destruct rest1 as [|[[] [l2 r2]] rest2]; try exact D; clear D.
+    apply sat_tok. ret. exists [a]. split; [reflexivity|]. cbn [map]. apply kl_cov; [exact q | constructor].
+  Qed.
+
+  Lemma parse_args_lay : forall s, sat s (sparse_args c SR s) (fun c args => kids_lay c (map tree_of_arg args)).
+  Proof.
+    intros [ts le]. unfold sparse_args. cbn [fst snd].
+    assert (D : sat (ts, le) (sargs_loop c SR (S (List.length ts)) [] (ts, le)) (fun c args => kids_lay c (map tree_of_arg args))).
+    { eapply sat_weaken; [apply args_loop_lay|]. intros c' ps (new & E1 & K). subst ps. exact K. }
+    destruct ts as [|[[] [l1 r1]] rest1]; try exact D; clear D. ret. constructor.
+  Qed.
+End LBody.
+
+Lemma go_lay : forall c fuel,
+  (forall s, sat s (sr_test (sgo c fuel) s) GoodE) /\ (forall s, sat s (sr_ortest (sgo c fuel) s) GoodE) /\
+  (forall s, sat s (sr_exprlist (sgo c fuel) s) GoodE) /\
+  (forall s, sat s (sr_args (sgo c fuel) s) (fun c args => kids_lay c (map tree_of_arg args))).
+Proof.
+  intros c. induction fuel as [|f (GT & GO & GE & GA)]; [repeat split; intros; exact I|].
+  cbn [sgo slevel sr_test sr_ortest sr_exprlist sr_args]. split; [|split; [|split]]; intros s.
+  - apply parse_test_lay; assumption.
+  - apply parse_or_test_lay; assumption.
+  - apply parse_expr_list_lay; assumption.
+  - apply parse_args_lay; assumption.
+Qed.
+
+(* (c) for statements: the whole one-line module is laid out over ALL its lexemes *)
+Theorem parser_layout : forall c fuel (ts : stoks) t, sparse c fuel ts = Ok t -> lay ts (tree_of_stmt t).
+Proof.
+  intros c fuel ts t H. unfold sparse, sparse_top in H. destruct (go_lay c fuel) as (GT & GO & GE & GA).
+  set (R := sgo c fuel) in *.
+  pose proof (parse_test_lay c R GT GO GE GA (ts, 0)) as H1.
+  destruct (sparse_test c R (ts, 0)) as [[first [ts0 le0]]| | |]; cbn [bind] in H; try discriminate.
+  destruct H1 as (c1 & E1 & L1 & G1). cbn [fst snd] in *. pose proof (covers_ne _ _ G1) as NE1.
+  pose proof (pos_first (ts, 0) c1 ts0 E1 NE1) as P. set (l := pos (ts, 0)) in *. clearbody l.
+  set (is_list := match ts0 with (TComma, _) :: _ => true | _ => false end) in *.
+  assert (HL : match (if is_list then stest_list_tail c (sparse_test c R) false l first (ts0, le0) else Ok (first, (ts0, le0))) with
+               | Ok (lhs, (ts1, le1)) => exists cL, ts = cL ++ ts1 /\ le1 = end_last 0 cL /\ covers cL (tree_of lhs) /\ first_begin cL = l
+               | _ => True end).
+  { destruct is_list.
+    - pose proof (test_list_tail_lay c (sparse_test c R) false (parse_test_lay c R GT GO GE GA) c1 0 first l (ts0, le0) G1 P L1) as H2.
+      destruct (stest_list_tail _ _ _ _ _ _) as [[lhs [ts1 le1]]| | |]; try exact I.
+      destruct H2 as (c2 & E2 & L2 & G2). cbn [fst snd] in *. exists (c1 ++ c2). repeat split.
+      + rewrite E1, E2, app_assoc. reflexivity.
+      + rewrite L2, L1, end_last_app. reflexivity.
+      + exact G2.
+      + rewrite first_begin_app by exact NE1. symmetry. exact P.
+    - exists c1. repeat split; auto. }
+  clear E1. destruct (if is_list then _ else _) as [[lhs [ts1 le1]]| | |]; cbn [bind] in H; try discriminate.
+  destruct HL as (cL & EL & LL & GL & PL). cbn [fst snd] in H. pose proof (covers_ne _ _ GL) as NEL.
+  destruct ts1 as [|[[] [l1 r1]] rest1]; try discriminate.
+  - destruct (is_list && true); [discriminate|]. inversion H; subst t. clear H. rewrite app_nil_r in EL. subst ts.
+    cbn [tree_of_stmt]. rewrite <- PL, LL. apply (lay_node cL [tree_of lhs] NEL). apply kl_cov1. exact GL.
+  - pose proof (test_list_lay c (sparse_test c R) false (parse_test_lay c R GT GO GE GA) (rest1, r1)) as H3.
+    destruct (stest_list c (sparse_test c R) false (rest1, r1)) as [[rhs [ts2 le2]]| | |]; cbn [bind] in H; try discriminate.
+    destruct H3 as (c3 & E3 & L3 & G3). cbn [fst snd] in *. destruct ts2 as [|? ?]; [|discriminate].
+    destruct (check_assign _); [|discriminate]. inversion H; subst t. clear H. rewrite app_nil_r in E3. subst rest1 ts.
+    cbn [tree_of_stmt]. rewrite tree_of_snorm.
+    replace (l, le2) with (seg_span (cL ++ (TEqual, (l1, r1)) :: c3)).
+    + apply lay_node; [apply app_ne_l; exact NEL|]. apply kl_cov; [exact GL|]. apply kl_skip, kl_cov1. exact G3.
+    + unfold seg_span. rewrite first_begin_app by exact NEL. rewrite end_last_app. cbn [end_last]. rewrite PL, L3. reflexivity.
+Qed.
+
+(* (c) for expressions: what parse_test consumed is, up to enclosing parentheses, the run its node is laid out over *)
+Theorem parser_layout_test : forall c fuel (ts : stoks) le e ts' le',
+  sparse_test_m c fuel (ts, le) = Ok (e, (ts', le')) ->
+  exists cons, ts = cons ++ ts' /\ le' = end_last le cons /\ covers cons (tree_of e).
+Proof.
+  intros c fuel ts le e ts' le' H. destruct (go_lay c fuel) as (GT & _). specialize (GT (ts, le)).
+  unfold sparse_test_m in H. rewrite H in GT. exact GT.
+Qed.
+
+(* ---------------------------------------------------------------------------------------------- *)
+(* Part C: a laid-out tree over monotone in-file lexeme spans is numerically well formed *)
+
+Lemma mono_cons_all : forall l r t, mono ((l, r) :: t) -> l <= r /\ forall y, List.In y t -> r <= fst y /\ fst y <= snd y.
+Proof.
+  intros l r t H. cbn [mono] in H. destruct H as (A & B & C). split; [exact A|]. intros y Hy.
+  destruct t as [|[l2 r2] t']; [destruct Hy|]. destruct (mono_first_le t' l2 r2 y C Hy). lia.
+Qed.
+
+Lemma mono_sep : forall a b x y, mono (a ++ b) -> List.In x a -> List.In y b -> fst x <= snd x /\ snd x <= fst y /\ fst y <= snd y.
+Proof.
+  induction a as [|[l r] a IH]; intros b x y M Hx Hy; [destruct Hx|]. cbn [app] in M.
+  destruct (mono_cons_all _ _ _ M) as (A & B). destruct Hx as [<-|Hx].
+  - cbn [fst snd]. destruct (B y) as (B1 & B2); [apply in_or_app; right; exact Hy|]. lia.
+  - apply (IH b x y); try assumption. cbn [mono] in M. tauto.
+Qed.
+
+Lemma mono_self : forall a x, mono a -> List.In x a -> fst x <= snd x.
+Proof.
+  induction a as [|[l r] a IH]; intros x M Hx; [destruct Hx|]. destruct (mono_cons_all _ _ _ M) as (A & B).
+  destruct Hx as [<-|Hx]; [exact A|]. destruct (B x Hx). assumption.
+Qed.
+
+Lemma fb_in : forall c : stoks, c <> [] -> exists r, List.In (first_begin c, r) (spans_of c).
+Proof. intros [|[t [l r]] c] H; [congruence|]. exists r. left. reflexivity. Qed.
+Lemma el_in : forall (c : stoks) p, c <> [] -> exists l, List.In (l, end_last p c) (spans_of c).
+Proof.
+  induction c as [|[t [l r]] c IH]; intros p H; [congruence|]. destruct c as [|x c'].
+  - exists l. left. reflexivity.
+  - destruct (IH r) as (l' & Hl); [discriminate|]. exists l'. right. exact Hl.
+Qed.
+Lemma spans_app : forall a b : stoks, spans_of (a ++ b) = spans_of a ++ spans_of b.
+Proof. intros. apply map_app. Qed.
+
+Lemma seg_ordered : forall c : stoks, c <> [] -> mono (spans_of c) -> first_begin c <= end_last 0 c.
+Proof.
+  intros [|[t [l r]] c] NE M; [congruence|]. cbn [first_begin end_last]. destruct c as [|x c'].
+  - cbn in *. lia.
+  - destruct (el_in (x :: c') r) as (l' & Hl); [discriminate|]. cbn [spans_of map] in M.
+    destruct (mono_cons_all _ _ _ M) as (A & B). destruct (B _ Hl). cbn [fst snd] in *. lia.
+Qed.
+
+Lemma seg_le : forall a b : stoks, a <> [] -> b <> [] -> mono (spans_of (a ++ b)) -> end_last 0 a <= first_begin b.
+Proof.
+  intros a b NA NB M. rewrite spans_app in M. destruct (el_in a 0 NA) as (l & Hl). destruct (fb_in b NB) as (r & Hr).
+  destruct (mono_sep _ _ _ _ M Hl Hr) as (_ & X & _). exact X.
+Qed.
+
+Lemma seg_begin_le : forall a c : stoks, c <> [] -> mono (spans_of (a ++ c)) -> first_begin (a ++ c) <= first_begin c.
+Proof.
+  intros a c NC M. destruct a as [|x a]; [cbn [app]; lia|]. rewrite first_begin_app by discriminate.
+  rewrite spans_app in M. destruct (fb_in (x :: a)) as (r & Hr); [discriminate|]. destruct (fb_in c NC) as (r' & Hr').
+  destruct (mono_sep _ _ _ _ M Hr Hr') as (X & Y & _). cbn [fst snd] in *. lia.
+Qed.
+
+Lemma seg_end_le : forall c b : stoks, c <> [] -> mono (spans_of (c ++ b)) -> end_last 0 c <= end_last 0 (c ++ b).
+Proof.
+  intros c b NC M. destruct b as [|x b]; [rewrite app_nil_r; lia|]. rewrite end_last_app.
+  rewrite (end_last_ne (x :: b) _ 0) by discriminate.
+  rewrite spans_app in M. destruct (el_in c 0 NC) as (l & Hl). destruct (el_in (x :: b) 0) as (l' & Hl'); [discriminate|].
+  destruct (mono_sep _ _ _ _ M Hl Hl') as (_ & Y & Z). cbn [fst snd] in *. lia.
+Qed.
+
+Lemma mono_spans_r : forall a b : stoks, mono (spans_of (a ++ b)) -> mono (spans_of b).
+Proof. intros a b M. rewrite spans_app in M. eapply mono_app_r; eauto. Qed.
+Lemma mono_spans_l : forall a b : stoks, mono (spans_of (a ++ b)) -> mono (spans_of a).
+Proof. intros a b M. rewrite spans_app in M. eapply mono_app_l; eauto. Qed.
+
+Scheme lay_mind := Minimality for lay Sort Prop
+  with kids_lay_mind := Minimality for kids_lay Sort Prop.
+Combined Scheme lay_kids_mind from lay_mind, kids_lay_mind.
+
+Lemma lay_wf_gen : forall len (ts : stoks),
+  (forall x, List.In x (spans_of ts) -> snd x <= len) ->
+  (forall core t, lay core t -> incl core ts -> mono (spans_of core) -> wf len ts t) /\
+  (forall c ks, kids_lay c ks -> incl c ts -> mono (spans_of c) ->
+     Forall (wf len ts) ks /\ kids_ordered ks /\
+     Forall (fun k => first_begin c <= fst (rsp k) /\ snd (rsp k) <= end_last 0 c) ks /\
+     (ks <> [] -> c <> [])).
+Proof.
+  intros len ts BD. apply lay_kids_mind.
+  - (* leaf *) intros tok [l r] IN M. cbn [spans_of map mono snd] in M. constructor.
+    + tauto.
+    + apply (BD (l, r)). apply (in_map snd ts (tok, (l, r))). apply IN. left. reflexivity.
+    + intros tok' E. inversion E; subst. split; [apply IN; left; reflexivity | reflexivity].
+    + constructor.
+    + exact I.
+    + constructor.
+  - (* node *) intros core kids NE K IH IN M. destruct (IH IN M) as (W & O & B & _). unfold seg_span. constructor.
+    + apply seg_ordered; assumption.
+    + destruct (el_in core 0 NE) as (l & Hl). apply (BD _ (incl_map snd IN _ Hl)).
+    + discriminate.
+    + exact B.
+    + exact O.
+    + exact W.
+  - intros c _ _. repeat split; try constructor. congruence.
+  - intros a c rest k ks L IHL K IHK IN M.
+    assert (INc : incl c ts). { intros x Hx. apply IN. apply in_or_app. right. apply in_or_app. left. exact Hx. }
+    assert (INr : incl rest ts). { intros x Hx. apply IN. apply in_or_app. right. apply in_or_app. right. exact Hx. }
+    pose proof (mono_spans_r _ _ M) as Mcr. pose proof (mono_spans_l _ _ Mcr) as Mc. pose proof (mono_spans_r _ _ Mcr) as Mr.
+    specialize (IHL INc Mc). destruct (IHK INr Mr) as (W & O & B & NEr).
+    pose proof (lay_ne _ _ L) as NC. pose proof (lay_span _ _ L) as SP.
+    assert (Bk : first_begin (a ++ c ++ rest) <= fst (rsp k) /\ snd (rsp k) <= end_last 0 (a ++ c ++ rest)).
+    { rewrite SP. unfold seg_span. cbn [fst snd]. split.
+      - rewrite <- (first_begin_app c rest NC). apply seg_begin_le; [apply app_ne_l; exact NC | exact M].
+      - rewrite end_last_app. rewrite (end_last_ne (c ++ rest) _ 0) by (apply app_ne_l; exact NC). apply seg_end_le; assumption. }
+    repeat split.
+    + constructor; assumption.
+    + destruct ks as [|k2 ks']; [exact I|]. split; [|exact O]. pose proof (NEr ltac:(discriminate)) as NR.
+      inversion B as [|? ? (B1 & _) _]; subst. rewrite SP. unfold seg_span. cbn [snd].
+      pose proof (seg_le c rest NC NR Mcr). lia.
+    + constructor; [exact Bk|]. destruct ks as [|k2 ks']; [constructor|]. pose proof (NEr ltac:(discriminate)) as NR.
+      eapply Forall_impl; [|exact B]. intros k' (X & Y). cbn beta. split.
+      * assert (first_begin (a ++ c ++ rest) <= first_begin rest); [|lia].
+        rewrite app_assoc. apply seg_begin_le; [exact NR | rewrite <- app_assoc; exact M].
+      * rewrite app_assoc, end_last_app. rewrite (end_last_ne rest _ 0 NR). exact Y.
+    + intros _. apply app_ne_r, app_ne_l. exact NC.
+Qed.
+
+(* (b) *)
+Theorem lay_wf : forall len (ts : stoks) t,
+  mono (spans_of ts) -> (forall x, List.In x (spans_of ts) -> snd x <= len) -> lay ts t -> wf len ts t.
+Proof. intros len ts t M BD L. apply (proj1 (lay_wf_gen len ts BD) ts t L); [apply incl_refl | exact M]. Qed.
+
+Theorem parser_span_nesting : forall c fuel (ts : stoks) len t,
+  mono (spans_of ts) -> (forall x, List.In x (spans_of ts) -> snd x <= len) ->
+  sparse c fuel ts = Ok t -> wf len ts (tree_of_stmt t).
+Proof. intros c fuel ts len t M BD H. apply lay_wf; try assumption. eapply parser_layout; eauto. Qed.
